@@ -37,7 +37,11 @@ import (
 type c33Extras struct {
 	DelMark   int // index of a source block carrying a deletion mark in the initial bucket, -1 = none
 	NoCompact int // index of a source block carrying a no-compact mark, -1 = none
-	Retention time.Duration
+	// further source blocks carrying a no-compact mark; with several marks read by the same worker of
+	// the marker filter a failed read is followed by successful ones
+	MoreNoCompact []int
+	FetchConc     int // --block-meta-fetch-concurrency of the instance (1 = one worker reads every marker)
+	Retention     time.Duration
 }
 
 type c33Target struct {
@@ -115,7 +119,7 @@ func c33Run(fx *fixture, ex c33Extras, tmp string, tgt *c33Target) (c33Result, e
 		}
 	}
 	st, err := newStack(ctx, ob, stackConfig{dataDir: filepath.Join(dataDir, "d"), deleteDelay: fx.sc.DeleteDelay,
-		vertical: fx.sc.Vertical, replicaLabel: fx.sc.Replicas, retentionRaw: ex.Retention})
+		vertical: fx.sc.Vertical, replicaLabel: fx.sc.Replicas, retentionRaw: ex.Retention, fetchConc: ex.FetchConc})
 	if err != nil {
 		return res, err
 	}
@@ -215,9 +219,14 @@ func c33Scenario(rt *rapid.T, rec *kit.Rec, sc scenario, ex c33Extras, maxTarget
 				rt.Fatalf("HARNESS: %v", err)
 			}
 		}
+		for _, i := range ex.MoreNoCompact {
+			if err := block.MarkForNoCompact(ctx, log.NewNopLogger(), bkt, fx.ids[i], metadata.ManualNoCompactReason, "verif", c); err != nil {
+				rt.Fatalf("HARNESS: %v", err)
+			}
+		}
 		fx.objects = bkt.Objects()
 	}
-	desc := fmt.Sprintf("delmark=%d nocompact=%d retention=%s %s", ex.DelMark, ex.NoCompact, ex.Retention, sc)
+	desc := fmt.Sprintf("delmark=%d nocompact=%d%v conc=%d retention=%s %s", ex.DelMark, ex.NoCompact, ex.MoreNoCompact, ex.FetchConc, ex.Retention, sc)
 
 	base, err := c33Run(fx, ex, tmp, nil)
 	if err != nil {
@@ -295,7 +304,11 @@ func c33Scenario(rt *rapid.T, rec *kit.Rec, sc scenario, ex c33Extras, maxTarget
 		marker := tgt.Class == "get:deletion-mark" || tgt.Class == "get:no-compact-mark"
 		if marker && r.present {
 			c = append(c, "failed-read-of-existing-marker")
+			if tgt.Class == "get:no-compact-mark" && len(ex.MoreNoCompact) > 0 {
+				c = append(c, "failed-read-of-one-of-several-no-compact-marks")
+			}
 		}
+		c = append(c, fmt.Sprintf("fetch-concurrency-%d", ex.FetchConc))
 		if r.cycleErr != nil {
 			c = append(c, "cycle-returned-error")
 		} else {
@@ -312,15 +325,33 @@ func c33Scenario(rt *rapid.T, rec *kit.Rec, sc scenario, ex c33Extras, maxTarget
 	return exhaustive
 }
 
-func genC33Extras(rt *rapid.T, sc scenario) c33Extras {
+// genC33Extras draws the extras; severalMarks forces at least two no-compact marks read by one worker.
+func genC33Extras(rt *rapid.T, sc scenario, severalMarks bool) c33Extras {
 	ex := c33Extras{DelMark: -1, NoCompact: -1}
 	n := len(sc.Blocks)
+	if severalMarks {
+		marks := rapid.SliceOfNDistinct(rapid.IntRange(0, n-1), 2, min(n, 3), rapid.ID[int]).Draw(rt, "noCompactSeveral")
+		ex.NoCompact, ex.MoreNoCompact = marks[0], marks[1:]
+		ex.FetchConc = 1
+		if rapid.Bool().Draw(rt, "retention") {
+			ex.Retention = 10 * 365 * 24 * time.Hour
+		}
+		return ex
+	}
 	if rapid.IntRange(0, 2).Draw(rt, "hasDelMark") == 0 {
 		ex.DelMark = rapid.IntRange(0, n-1).Draw(rt, "delMark")
 	}
 	if rapid.IntRange(0, 2).Draw(rt, "hasNoCompact") == 0 {
 		ex.NoCompact = rapid.IntRange(0, n-1).Draw(rt, "noCompact")
+		if n > 1 && rapid.Bool().Draw(rt, "moreNoCompact") {
+			for _, i := range rapid.SliceOfNDistinct(rapid.IntRange(0, n-1), 1, min(n-1, 3), rapid.ID[int]).Draw(rt, "noCompactMore") {
+				if i != ex.NoCompact {
+					ex.MoreNoCompact = append(ex.MoreNoCompact, i)
+				}
+			}
+		}
 	}
+	ex.FetchConc = rapid.SampledFrom([]int{1, 1, 4}).Draw(rt, "fetchConcurrency")
 	if rapid.Bool().Draw(rt, "retention") {
 		ex.Retention = 10 * 365 * 24 * time.Hour // every generated block (timestamps near the epoch) exceeds it
 	}
@@ -333,10 +364,26 @@ func TestVerifC33(t *testing.T) {
 	all := true
 	rec.Check(t, func(rt *rapid.T) {
 		sc := genScenario(rt)
-		ex := genC33Extras(rt, sc)
+		ex := genC33Extras(rt, sc, false)
 		if !c33Scenario(rt, rec, sc, ex, maxTargets) {
 			all = false
 		}
 	})
 	rec.Exhaustive(all)
+}
+
+// TestVerifC33_SeveralMarks: scenarios of at least three blocks of which two or three carry a
+// no-compact mark, all read by a single worker of GatherNoCompactionMarkFilter, so that the failed
+// read of one mark is followed (or preceded) by successful reads of the others.
+func TestVerifC33_SeveralMarks(t *testing.T) {
+	rec := kit.For(t, "C33")
+	maxTargets := kit.Scale("C33_TARGETS", 0, 0)
+	rec.Check(t, func(rt *rapid.T) {
+		sc := genScenario(rt)
+		if len(sc.Blocks) < 3 {
+			rt.Skip("fewer than three blocks")
+		}
+		ex := genC33Extras(rt, sc, true)
+		c33Scenario(rt, rec, sc, ex, maxTargets)
+	})
 }
